@@ -728,6 +728,21 @@ example : ((buildL Xp.base tDupLL = none ∧ (opsValidate OpFacts.current .outpu
      (by decide) (by decide) (by decide) (by decide) (by decide) (by decide),
    by decide, by decide, by decide, by decide, by decide, by decide⟩
 
+/-- **each fact is needed**: in a source tree where one of the three facts does not hold, the model of `lyd_validate_op` (which follows
+the source) departs from the specification of operation content on a concrete instance of the example schema — the check then
+reports such instances as violations with the document (`ops-iff`):
+without `lyd_validate_new` on the output siblings (F193) a reply with the leaf `x` twice is accepted;
+with leaf-lists of operations held to unique values, or with config flags honoured inside operations, the repeated `ll` / `w` values
+of `tOps2` are refused. -/
+theorem ops_facts_needed :
+    ((opsValidate { OpFacts.rfc with replyOutputNewValidated := false } .output Xops [.term 6 fl [] [120], .term 6 fl [] [120]]).errs = [] ∧
+      opsViolations Xops [.term 6 fl [] [120], .term 6 fl [] [120]] = [.dup] ∧
+      ((opsValidate OpFacts.rfc .output Xops [.term 6 fl [] [120], .term 6 fl [] [120]]).errs.map (·.kind)) = [.dup, .dup]) ∧
+    (((opsValidate { OpFacts.rfc with leafListDupAllowed := false } .input Xops tOps2).errs.map (·.kind)).contains .dup = true ∧
+      opsViolations Xops tOps2 = [] ∧ (opsValidate OpFacts.rfc .input Xops tOps2).errs = []) ∧
+    (((opsValidate { OpFacts.rfc with configIgnored := false } .notif Xops tOps2).errs.map (·.kind)).contains .dup = true) := by
+  refine ⟨⟨by decide, by decide, by decide⟩, ⟨by decide, by decide, by decide⟩, by decide⟩
+
 /-! ### `LYD_VALIDATE_NO_STATE` (excluded for operation content) -/
 
 /-- **`ops_noState`**: under `LYD_VALIDATE_NO_STATE` the specification on the all-state variant reports `UnexpState` as soon as the
